@@ -95,10 +95,51 @@ class Effects:
         return out
 
     def _compute_direct(self) -> None:
+        self.refusals: Dict[Func, List[Tuple[Effect, ast.AST]]] = {}
         for f in self.model.all_funcs():
             dn = self._direct_of(f)
             self.direct_nodes[f] = dn
             self.direct[f] = [e for e, _ in dn]
+            self.refusals[f] = self._refusals_of(f)
+
+    REFUSAL_ERRORS = {
+        "UniqueConstraintError", "AmbiguousMatchError", "ValueError", "NotImplementedError",
+        "TypeError", "KeyError", "RuntimeError", "TreeError",
+    }
+
+    def _refusals_of(self, f: Func) -> List[Tuple[Effect, ast.AST]]:
+        """Pseudo-effects op='refuse': explicit raises of library/argument
+        errors, argument asserts of public functions, list searches on an
+        argument.  They travel through the same summaries (guards included)."""
+        env = self.env
+        out: List[Tuple[Effect, ast.AST]] = []
+        params = set(f.top.param_names()) - {f.self_name}
+        if f.parent is not None:
+            params |= set(f.param_names())
+        for n in iter_own(f.node):
+            gs = set(env.guards_of(n))
+            what = None
+            if isinstance(n, ast.Raise) and n.exc is not None:
+                ex = n.exc.func if isinstance(n.exc, ast.Call) else n.exc
+                rc = ex.id if isinstance(ex, ast.Name) else getattr(ex, "attr", None)
+                if rc in self.REFUSAL_ERRORS:
+                    what = f"raise {rc}"
+            elif isinstance(n, ast.Assert) and not (f.top.name.startswith("_") and not f.top.name.startswith("__")):
+                names = {x.id for x in ast.walk(n.test) if isinstance(x, ast.Name)}
+                if names & params:
+                    what = "assert on an argument"
+                    t = n.test
+                    if (isinstance(t, ast.Compare) and len(t.ops) == 1 and isinstance(t.ops[0], ast.In)
+                            and isinstance(t.left, ast.Name) and t.left.id in params
+                            and isinstance(t.comparators[0], (ast.Tuple, ast.List, ast.Set))):
+                        vals = tuple(c.value for c in t.comparators[0].elts if isinstance(c, ast.Constant))
+                        gs.add((t.left.id, frozenset({("NOTIN", vals)})))
+            elif (isinstance(n, ast.Call) and isinstance(n.func, ast.Attribute) and n.func.attr in ("index", "remove")
+                  and n.args and isinstance(n.args[0], ast.Name) and n.args[0].id in params):
+                what = f"{norm(n)} raises ValueError if absent"
+            if what:
+                out.append((Effect("refuse", "-", what, f.site, getattr(n, "lineno", 0), norm(n), frozenset(gs)), n))
+        return out
 
     # ------------------------------------------------------------- summaries
     def _map_effect(self, f: Func, call: ast.Call, g: Func, recv, e: Effect) -> List[Effect]:
@@ -108,7 +149,7 @@ class Effects:
         if g.parent is not None:
             # nested function of the same top-level function: roots are shared
             return [e]
-        if e.root in ("fresh", "global", "unknown"):
+        if e.root in ("fresh", "global", "unknown", "-"):
             rs = frozenset({e.root})
         else:
             rs = env.map_roots(f, call, g, recv, frozenset({e.root}))
@@ -146,6 +187,8 @@ class Effects:
         funcs = self.model.all_funcs()
         for f in funcs:
             self.summary[f] = {e.key: e for e in self.direct[f]}
+            for e, _ in self.refusals[f]:
+                self.summary[f][e.key] = e
         changed = True
         rounds = 0
         while changed and rounds < 30:
@@ -173,7 +216,7 @@ class Effects:
 
     # --------------------------------------------------------------- queries
     def of(self, f: Func, *, include_fresh: bool = False) -> List[Effect]:
-        es = list(self.summary[f].values())
+        es = [e for e in self.summary[f].values() if e.op != "refuse"]
         if not include_fresh:
             es = [e for e in es if e.root != "fresh"]
         return sorted(es, key=lambda e: (e.origin, e.line, e.op, e.root))
